@@ -269,9 +269,9 @@ def handleStep (st : St) : List String → St × String
         | none, some (.send c _) => (s!"0@{st.idx}:{c.render}", "-")
         | none, none => ("0@end:no-model", "-")
       let p := match post sq st.bus0 st.bus st.faulted out with
-        | none => "ok" | some m => "FAIL:" ++ m.replace " " "_"
+        | none => "ok" | some m => "FAIL:" ++ m.replace " " "~"
       ({ st with seq := none, model := none, fault := none },
-        s!"ok sync={sync} model={modelOut.replace " " "_"} post={p}")
+        s!"ok sync={sync} model={modelOut.replace " " "~"} post={p}")
     | _, _ => (st, "bad-op")
   | ["check_bad", kind, r1] | ["check_bad", kind, r1, _] => (st, "bad-op:" ++ kind ++ r1)
   | _ => (st, "bad-op")
